@@ -114,7 +114,8 @@ theorem pinned_suffix_newline :
 
 /-! ## `replace` -/
 
-/-- `${x/p/w}` and `${x//p/w}` on a set scalar, for a pattern that is not anchored: the leftmost
+/-- `${x/p/w}` and `${x//p/w}` on a set scalar, for a pattern that is not anchored and a replacement
+    text `w` that is written verbatim (no unquoted `&`, see `replace_amp_statement`): the leftmost
     match, the longest there, replaced (`//`: again behind it, never overlapping), the rest copied;
     a pattern that matches the empty string matches everything (hypothesis `EmptyAll`: true of
     shell patterns, which then consist of stars only) and gives the replacement alone. -/
@@ -156,6 +157,31 @@ theorem replace_statement_false : ¬ replace_statement := by
   rw [replace_anchored_counterexample.1] at this
   have h2 := replace_anchored_counterexample.2
   simp only [anchoredRepl] at this
+  rw [h2] at this
+  revert this; decide
+
+/-- With bash 5.2's default `patsub_replacement`: an unquoted `&` in the replacement is the match. -/
+def replace_amp_statement : Prop :=
+  ∀ (x : Ext) (cfg : Cfg) (env : Env) (name s ifs : Str) (r : Repl) (m : Str → Bool),
+    ifsOf env = .ok ifs → Plain name → env.get name = Var.ofStr s → r.orig ≠ [] → x.M r.orig = .ok m →
+    m [] = false → r.anchor = .none → r.all = false →
+    paramExp x cfg env { name := name, repl := some r } = .ok (Spec.replFirstAmp m r.with_ s, env)
+
+def ampRepl : Repl := ⟨false, ['b'], sOf "[&]", .none⟩
+
+/-- finding C21-patsub-ampersand: `x=abcb; ${x/b/[&]}` is `a[&]cb` (bash `a[b]cb`) -/
+theorem replace_amp_counterexample :
+    paramExp xLit {} [(xN, Var.ofStr (sOf "abcb"))] { name := xN, repl := some ampRepl }
+      = .ok (sOf "a[&]cb", [(xN, Var.ofStr (sOf "abcb"))]) ∧
+    Spec.replFirstAmp (fun u => u == ['b']) (sOf "[&]") (sOf "abcb") = sOf "a[b]cb" := by decide
+
+theorem replace_amp_statement_false : ¬ replace_amp_statement := by
+  intro h
+  have := h xLit {} [(xN, Var.ofStr (sOf "abcb"))] xN (sOf "abcb") (sOf " \t\n") ampRepl
+    (fun u => u == ['b']) (by decide) (by decide) (by decide) (by decide) rfl (by decide) rfl rfl
+  rw [replace_amp_counterexample.1] at this
+  have h2 := replace_amp_counterexample.2
+  simp only [ampRepl] at this
   rw [h2] at this
   revert this; decide
 
